@@ -23,7 +23,7 @@ func Exec(s core.Schedule) *core.Outcome {
 		zap.ReplaceGlobals(l)
 	}
 	r := &run{sc: sc, cfg: cfg, out: out, models: map[dragonboat.ShardKey]*shardModel{}, lastL: map[string]uint64{}, seenL: map[string]map[uint64]bool{},
-		blocked: map[string]bool{}, clientDelay: map[string]time.Duration{}, leaderTables: map[string]uint64{}, deleted: map[string]bool{}, start: time.Now()}
+		blocked: map[string]bool{}, clientDelay: map[string]time.Duration{}, backups: map[int]*backupRec{}, leaseTasks: map[string]*leaseTask{}, leaderTables: map[string]uint64{}, deleted: map[string]bool{}, start: time.Now()}
 	r.kc = &fsmsim.Cfg{Keys: cfg.Keys}
 	w := NewWorld(WorldCfg{Seed: cfg.Seed, Leaders: cfg.Leaders, Followers: cfg.Followers, SnapshotEntries: cfg.SnapshotEntries, CompactionOverhead: cfg.CompactionOverhead,
 		MaxInMemLogSize: cfg.MaxInMemLogSize, LogCacheSize: cfg.LogCacheSize, MaxMsg: cfg.MaxMsg, PollMs: cfg.PollMs, LeaseMs: cfg.LeaseMs, ReconcileMs: cfg.ReconcileMs,
@@ -31,6 +31,11 @@ func Exec(s core.Schedule) *core.Outcome {
 	r.w = w
 	w.u.BusyPermille, w.u.DropPermille, w.u.TimeoutLostPermille, w.u.TimeoutAppliedPermille = cfg.BusyPermille, cfg.DropPermille, cfg.TOLostPermille, cfg.TOAppliedPermille
 	w.u.FaultMinShard = 10000 // metadata shards are not subjected to proposal faults
+	w.u.ReadBusyPermille = cfg.ReadBusyPermille
+	w.noReplication = cfg.NoReplication
+	if cfg.Prop == "C15" {
+		r.installLeaseGate()
+	}
 	w.net.Delay = func(from, to string) time.Duration {
 		if d, ok := r.clientDelay[from]; ok && d > 0 {
 			return d
@@ -42,6 +47,10 @@ func Exec(s core.Schedule) *core.Outcome {
 	}
 	w.net.Blocked = func(from, to string) bool { return r.blocked[from] || r.blocked[to] }
 	defer func() {
+		for _, d := range r.tmpDirs {
+			_ = os.RemoveAll(d)
+		}
+		w.u.Gate = nil
 		w.StopAll()
 		settle()
 		dragonboat.SetUniverse(nil)
@@ -108,7 +117,12 @@ func Exec(s core.Schedule) *core.Outcome {
 			return out
 		}
 	}
-	if cfg.Prop == "C14" {
+	if cfg.Prop == "C15" {
+		r.drainLeaseTasks()
+		settle()
+		r.checkFatals()
+		r.checkLeases()
+	} else if cfg.Prop == "C14" {
 		r.waitPending()
 		// quiet period: heal, then two reconcile periods (30 s each, hard-wired in table.Manager)
 		for _, n := range w.nodes() {
@@ -309,6 +323,10 @@ func (r *run) finish() {
 		out.NonTrivial = out.Probes["follower-advanced"] >= 2 && len(out.Faults) > 0
 	case "C10":
 		out.NonTrivial = out.Probes["raft-linearizable-read-on-lagging-replica"] > 0 || out.Probes["overlapping-calls"] > 0
+	case "C07":
+		out.NonTrivial = out.Probes["restore-multi-pair"] > 0 || out.Probes["backup-with-concurrent-writes"] > 0 || out.Faults["raft-snapshot-install"] > 0
+	case "C15":
+		out.NonTrivial = out.Probes["calls-overlapped-between-read-and-write"] > 0
 	default:
 		out.NonTrivial = true
 	}
